@@ -530,7 +530,7 @@ func (root *Root) validateDirUse(where string, loc Location, du *DirectiveUse) (
 			if co, _ := a.Type.(InCoercer); co != nil {
 				if v, err := co.CoerceIn(av.Value); err != nil {
 					errs = append(errs, fmt.Errorf("%w at %d:%d", err, av.line, av.col))
-				} else if v != av.Value {
+				} else {
 					// Might as well replace the coerced value since it is really
 					// what is needed.
 					av.Value = v
